@@ -213,6 +213,16 @@ class Interp:
                     isinstance(self.ev(t.left), Sca) and self.const(t.comparators[0]) == 0
                 empty = len(s.body) == 1 and isinstance(s.body[0], ast.Return) and not s.orelse and \
                     norm(s.body[0].value).startswith(('np.array([]', 'np.zeros(0', 'np.empty(0', '[]'))
+                # the same guard written the other way round: if w != 0 / w > 0: <rule> else: return <empty>
+                nonzero = isinstance(t, ast.Compare) and len(t.ops) == 1 and isinstance(t.ops[0], (ast.NotEq, ast.Gt)) and \
+                    isinstance(self.ev(t.left), Sca) and self.const(t.comparators[0]) == 0
+                empty_else = len(s.orelse) == 1 and isinstance(s.orelse[0], ast.Return) and \
+                    norm(s.orelse[0].value).startswith(('np.array([]', 'np.zeros(0', 'np.empty(0', '[]'))
+                if nonzero and empty_else:
+                    self.block(s.body)
+                    if self.ret is not None:
+                        return
+                    continue
                 if not (zero and empty):
                     # any other conditional: both arms are followed; each return met is judged on its own
                     saved = dict(self.env)
@@ -277,6 +287,8 @@ def rule(chk, repo, rid):
     fi = repo.func('bond_ops.retained_bond_indices')
     if len(fi.params) != 2:
         raise AnalysisError('retained_bond_indices: expected (s, tol)')
+    from ..normal import wrap, result_var_to_returns
+    fi = wrap(fi, result_var_to_returns)
     ip = Interp(fi)
     ret = ip.run(fi.params[1])
     if ret is None:
